@@ -311,6 +311,12 @@ Cases ==
                            \cup {c \in {C("invoke", nm, <<r, a, r>>) : r \in Pool, nm \in Arity2Names, a \in Small} : c.name \in Methods(c.ops[1].cls)}
                            \cup {C("index", "", <<x, x>>) : x \in Pool} \cup {C("binop", op, <<x, x>>) : op \in {"+", "<", "=="}, x \in Pool}
                            \cup {C("call", "", <<f, f>>) : f \in Pool}
+      [] Form = "fiberops" -> \* everything that can be done to a fiber or to the Fiber class (C09)
+                           LET FR == Fibers \cup {ById("c_Fiber")} IN
+                           {C("invoke", nm, <<r>>) : r \in FR, nm \in AllNames}
+                           \cup {c \in {C("invoke", nm, <<r, a>>) : r \in FR, nm \in AllNames, a \in Pool} : c.name \in Methods(c.ops[1].cls)}
+                           \cup {c \in {C("invoke", nm, <<r, a, b>>) : r \in FR, nm \in AllNames, a \in Rep, b \in Small} : c.name \in Methods(c.ops[1].cls)}
+                           \cup {C("call", "", <<r, a>>) : r \in FR, a \in Small} \cup {C("index", "", <<r, a>>) : r \in FR, a \in Small}
       [] Form = "iterate" -> {C("iternext", "", <<x>>) : x \in {v \in Pool : "iter" \in Methods(v.cls) /\ v.cls \notin {"DerString", "DerVec"}}}
       [] Form = "misc" -> {C(f, "", <<x>>) : f \in {"forin", "mapkey", "derive", "throw", "show"}, x \in Pool}
 
